@@ -25,13 +25,15 @@ EXTENDS Challenger, Json
 
 CONSTANTS Atoms, Bursts, MaxOps, EmitReplay, GetWeight
 
-VARIABLES T, I, C, TC, hist, outs, comps, deliv, flags
-vars == <<T, I, C, TC, hist, outs, comps, deliv, flags>>
+VARIABLES T, I, C, TC, UC, hist, outs, comps, deliv, flags
+vars == <<T, I, C, TC, UC, hist, outs, comps, deliv, flags>>
 
 \* the dependency abstraction used by Transcript / StarkTranscript (C04), run in lock step as TC
 TCore == INSTANCE TranscriptCore
 RECURSIVE TObserveAll(_, _)
 TObserveAll(tc, xs) == IF xs = <<>> THEN tc ELSE TObserveAll(TCore!TObserve(tc, {Head(xs)}), Tail(xs))
+RECURSIVE UObserveAll(_, _)
+UObserveAll(uc, xs) == IF xs = <<>> THEN uc ELSE UObserveAll(TCore!UObserve(uc, {Head(xs)}), Tail(xs))
 
 HistAtoms(h) == {h[k] : k \in {j \in 1..Len(h) : h[j] > 0}}
 OnlyObserves(h) == \A k \in 1..Len(h) : h[k] > 0
@@ -39,7 +41,7 @@ OnlyObserves(h) == \A k \in 1..Len(h) : h[k] > 0
 RECURSIVE IdealAbsorbAll(_, _)
 IdealAbsorbAll(I0, xs) == IF xs = <<>> THEN I0 ELSE IdealAbsorbAll(IdealAbsorb(I0, Head(xs)), Tail(xs))
 
-Init == /\ T = EmptyT /\ I = IdealInit /\ C = ChInit /\ TC = TCore!TInit
+Init == /\ T = EmptyT /\ I = IdealInit /\ C = ChInit /\ TC = TCore!TInit /\ UC = TCore!UInit
         /\ hist = <<>> /\ outs = <<>> /\ comps = <<>> /\ deliv = {}
         /\ flags = [dep |-> TRUE, pl |-> TRUE, is |-> TRUE, comp |-> TRUE, taint |-> TRUE]
 
@@ -48,6 +50,7 @@ DoObserve(xs) ==
   IN /\ T' = r[1] /\ C' = r[2]
      /\ I' = IdealAbsorbAll(I, xs)
      /\ TC' = TObserveAll(TC, xs)
+     /\ UC' = UObserveAll(UC, xs)
      /\ hist' = hist \o xs
      /\ UNCHANGED <<outs, comps, deliv, flags>>
 
@@ -58,6 +61,7 @@ DoGet ==
       prev == IF flushed THEN {} ELSE deliv
   IN /\ T' = b[1] /\ I' = a[2] /\ C' = b[2]
      /\ TC' = TCore!TGet(TC)[1]
+     /\ UC' = TCore!UGet(UC)[1]
      /\ hist' = Append(hist, 0)
      /\ outs' = Append(outs, a[3])
      /\ comps' = comps
@@ -66,13 +70,14 @@ DoGet ==
             !.dep = @ /\ Deps(b[1], b[3]) = HistAtoms(hist),
             !.pl  = @ /\ b[3] \in {a[2].st[i] : i \in 1..RATE} /\ b[3] \notin prev,
             !.is  = @ /\ b[3] = a[3],
-            !.taint = @ /\ TCore!TGet(TC)[2] = Deps(b[1], b[3])]
+            !.taint = @ /\ TCore!TGet(TC)[2] = Deps(b[1], b[3]) /\ TCore!UGet(UC)[2] = Deps(b[1], b[3])]
 
 DoCompact ==
   LET a == CHOOSE x \in {IdealCompact(T, I)} : TRUE
       b == CHOOSE x \in {Compact(a[1], C)} : TRUE
   IN /\ T' = b[1] /\ I' = a[2] /\ C' = b[2]
      /\ TC' = TCore!TCompact(TC)
+     /\ UC' = TCore!UCompact(UC)
      /\ hist' = Append(hist, -1)
      /\ comps' = Append(comps, a[3])
      /\ deliv' = {}
@@ -92,6 +97,10 @@ PLAgree == flags.pl
 ISAgree == flags.is
 CompInv == flags.comp
 BufInv == BufferInv(C)
+\* the compressed form of the abstraction is the lane-wise one
+UniformInv == /\ \A i \in 1..WIDTH : TC.st[i] = UC.u
+              /\ TC.inb = UC.inb
+              /\ Len(TC.outb) = UC.nout /\ \A i \in 1..Len(TC.outb) : TC.outb[i] = UC.u
 \* the set-valued challenger of TranscriptCore is exactly the Deps-image of the term-level challenger
 TaintInv == /\ flags.taint
             /\ \A i \in 1..WIDTH : Deps(T, C.st[i]) = TC.st[i]
